@@ -1,11 +1,12 @@
 import FstVerif.Proofs.Open
+import FstVerif.Proofs.OldVer
 /-
 C10 — version / length gate of `Fst::new` and `verify` on old versions.
 Statements only; proofs in Proofs/Open.lean. (The read-side theorems for
 versions 1 and 2 are assembled from Proofs/Codec.lean, see C10_read below when present.)
 -/
 namespace Fst.Props
-open Fst Fst.OpenProofs
+open Fst Fst.OpenProofs Fst.OldVer
 
 /-- inputs shorter than 32 bytes are rejected with a Format error, whatever they contain -/
 theorem C10_short (bs : List UInt8) (h : bs.length < 32) :
@@ -32,6 +33,62 @@ theorem C10_checksum_missing (bs : List UInt8) (m : Meta)
 theorem C10_v3_has_checksum (bs : List UInt8) (m : Meta)
     (hm : fstNew (Src.ofList bs) = .ok m) (hv : m.version = 3) :
     fstVerify m (Src.ofList bs) ≠ .err .checksumMissing := OpenProofs.checksum_present_v3 bs m hm hv
+
+/-- READ SIDE, versions 1, 2 and 3. `Spec.encodeFst` (Spec/Encode.lean) is the reference
+encoder — version 1 without transition index, version 2 with index and without checksum,
+version 3 with both; on every run its bytes are diffed against the independent Rust
+reference encoder of the harness. For every sorted map, both output-placement styles, with or
+without node sharing: the file opens with that version, type and key count, carries a
+checksum iff version 3, `verify()` answers ChecksumMissing / Ok accordingly, and the reader
+of that version represents a good store whose root spells exactly the map -/
+theorem C10_read (version ty : Nat) (kvs : KV) (style : Nat) (share : Bool)
+    (h : Input version ty kvs style share) :
+    let bytes := Spec.encodeFst version ty kvs style share
+    let st := encStore version kvs style share
+    let den := encDen version kvs style share
+    ∃ m, fstNew (Src.ofList bytes) = .ok m ∧ m.version = version ∧ m.ty = ty ∧
+      m.len = kvs.length ∧ m.rootAddr = encRoot version kvs style share ∧
+      (m.checksum = none ↔ version ≤ 2) ∧
+      Represents (byteAccess version (Src.ofList bytes)) st ∧ GoodStore st den ∧
+      den m.rootAddr = kvs ∧ (m.rootAddr = 0 ∨ ∃ n, (m.rootAddr, n) ∈ st) ∧
+      fstVerify m (Src.ofList bytes) = (if version ≤ 2 then .err .checksumMissing else .ok ()) :=
+  OldVer.C10_read version ty kvs style share h
+
+/-- hence every query answers according to the content, for each version -/
+theorem C10_get (version ty : Nat) (kvs : KV) (style : Nat) (share : Bool)
+    (h : Input version ty kvs style share) :
+    ∃ m, fstNew (Src.ofList (Spec.encodeFst version ty kvs style share)) = .ok m ∧
+      ∀ key, fstGet (byteAccess m.version (Src.ofList (Spec.encodeFst version ty kvs style share)))
+        m.rootAddr key = some (lookupKV kvs key) := OldVer.C10_get version ty kvs style share h
+
+theorem C10_stream {σ : Type} (version ty : Nat) (kvs : KV) (style : Nat) (share : Bool)
+    (h : Input version ty kvs style share) (A : Aut σ)
+    (hEof : ∀ x, A.acceptEof x = none)
+    (hCan : ∀ x, A.canMatch x = false → ∀ w, A.isMatch (A.run x w) = false)
+    (min max : Bound) :
+    ∃ m, fstNew (Src.ofList (Spec.encodeFst version ty kvs style share)) = .ok m ∧
+      ∃ s0, streamNew (byteAccess m.version (Src.ofList (Spec.encodeFst version ty kvs style share)))
+          A m.rootAddr min max = some s0 ∧
+      ∃ N, ∀ fuel, N ≤ fuel →
+        streamCollect (byteAccess m.version (Src.ofList (Spec.encodeFst version ty kvs style share)))
+            A m.rootAddr fuel s0 [] =
+          some ((kvs.filter fun kv =>
+                  lowerOK min kv.1 && upperOK max kv.1 && A.accepts kv.1).map
+                  fun kv => (kv.1, kv.2, A.run A.start kv.1)) :=
+  OldVer.C10_stream version ty kvs style share h A hEof hCan min max
+
+/-- the version-1 reader decodes nodes of any fan-out written without an index -/
+theorem C10_codec_v1 (n : BNode) (lastAddr start : Nat) (enc pre post : List UInt8)
+    (wf : WFNode n lastAddr start) (henc : Spec.compileNodeV 1 n lastAddr start = some enc)
+    (hpre : pre.length = start) :
+    ∃ rn, nodeNew 1 (Src.ofList (pre ++ enc ++ post)) (start + enc.length - 1) = some rn ∧
+      rn.toBNode (Src.ofList (pre ++ enc ++ post)) = some n := by
+  obtain ⟨_, rn, h1, _, _, _, _, _, _, _, h9⟩ := codec_roundtrip_v1 n lastAddr start enc pre post wf henc hpre
+  exact ⟨rn, h1, h9⟩
+
+/-- non-vacuity: a 42-key map with a 40-way node and the empty key, versions 1, 2, 3 -/
+example : Input 1 7 ex40 1 true ∧ Input 2 7 ex40 0 false ∧ Input 3 0 ex40 1 true :=
+  ⟨ex40_input_v1, ex40_input_v2, ex40_input_v3⟩
 
 /-- non-vacuity: the 32-byte empty version-2 file opens (the defect fixed in 31cecbb) -/
 example : fstNew (Src.ofList ([2,0,0,0,0,0,0,0] ++ List.replicate 24 0)) =
